@@ -33,10 +33,10 @@ def umbrellaB (ts : List (β × β × β)) (v : β) : Bool :=
   | none => false
   | some e0 =>
     let w := linkWalk l l.length e0.1
-    decide ((l.map (·.1)).Nodup) && (w.length == l.length) && decide w.Nodup &&
+    decide (3 ≤ l.length) && decide ((l.map (·.1)).Nodup) && (w.length == l.length) && decide w.Nodup &&
       ((w.getLast?.bind (linkNext l)) == some e0.1)
 
-/-- **one umbrella**: the link of `v` is a single directed cycle through all its edges: it is non-empty, no two link
+/-- **one umbrella**: the link of `v` is a single directed cycle through all its edges: it has at least 3 edges, no two link
     edges start at the same vertex, and following the link from the first edge's start visits `|link|` distinct
     vertices and then returns to the start. -/
 def Umbrella (ts : List (β × β × β)) (v : β) : Prop := umbrellaB ts v = true
